@@ -722,6 +722,7 @@ class SchedulingSolver(BaseModelWithJson):
         solution = False
         total_time = 0
         current_variable_value = None
+        nb_pushes = 0  # the number of bounds pushed on the solver stack
         print("Incremental optimizer:\n======================")
         three_last_times = []
 
@@ -804,12 +805,18 @@ class SchedulingSolver(BaseModelWithJson):
                     )
                     break
             self._solver.push()
+            nb_pushes += 1
             if kind == "min":
                 self.append_z3_assertion(variable < current_variable_value)
                 print(f"\tChecking better value < {current_variable_value}")
             else:
                 self.append_z3_assertion(variable > current_variable_value)
                 print(f"\tChecking better value > {current_variable_value}")
+
+        # remove the bounds pushed during the search, so that the solver is
+        # left with the problem assertions only
+        for _ in range(nb_pushes):
+            self._solver.pop()
 
         print(f"\ttotal number of iterations: {num_iter}")
         if current_variable_value is not None:
